@@ -42,6 +42,44 @@ def expected(n1, t1, n2, t2):
     return -1 if t1 < t2 else 1
 
 
+
+def extension_strip_obligations(ctx, rep, rule):
+    """`extstrip` takes the file's own extension off its title - the last occurrence, once - and leaves every other name alone:
+    fileext.extstrip evaluated with a two-entry type map."""
+    from ..paths import Const, Walker
+
+    prog = ctx.prog
+    mod = prog.modules.get("pygopherd.fileext")
+    f = mod.functions.get("extstrip") if mod else None
+    if f is None or len(f.params) < 2:
+        rep.fail(rule, "fileext.extstrip", detail="extension stripping routine not found")
+        return
+    tm = {"text/plain": [".txt", ".text"], "text/html": [".html", ".htm"]}
+    cases = [("notes.txt", "text/plain", "notes"), ("notes.txt.old.txt", "text/plain", "notes.txt.old"), ("a.txt.txt", "text/plain", "a.txt"),
+             ("index.html.en.html", "text/html", "index.html.en"), ("readme", "text/plain", "readme"), ("notes.txt", "text/html", "notes.txt"),
+             ("notes.txt", None, "notes.txt"), ("notes.txt", "image/png", "notes.txt"), ("x.text", "text/plain", "x"), (".txt", "text/plain", "")]
+    problems, n = [], 0
+    for name, typ, want in cases:
+        facts = {"typemap": Const({k: list(v) for k, v in tm.items()})}
+        w = Walker(prog, ctx.resolver, exact_loops=True, unroll=6, max_paths=500, assumptions=dict(facts), sticky=set(facts),
+                   inline=lambda fn, t, d: d < 2 and fn.module is mod)
+        outs = set()
+        try:
+            for p in w.run(f, None, env={f.params[0]: Const(name), f.params[1]: Const(typ)}, facts=dict(facts)):
+                outs.add(p.value.value if p.kind == "return" and p.value is not None and p.value.kind == "const" else "?")
+        except Exception:
+            outs = {"?"}
+        if len(outs) != 1 or "?" in outs:
+            continue
+        n += 1
+        got = next(iter(outs))
+        if got != want:
+            problems.append(f"extstrip({name!r}, {typ!r}) gives {got!r}, the title without its extension is {want!r}")
+    rep.add(rule, f"{f.qualname}: the file's own extension is taken off, once, at the end [{n} of {len(cases)} evaluated]", not problems and n >= len(cases) // 2,
+            ctx.where(f), "; ".join(problems[:2]) if problems else ("" if n >= len(cases) // 2 else "the walker could not follow the routine"),
+            key=f"{rule}|extstrip", nontrivial=n > 0)
+
+
 def check(ctx, rep):
     prog = ctx.prog
     rep.rule("R08a", "entrycmp evaluated on every order type of (num1, num2, 0) x (name1 ? name2): documented bucket order and antisymmetry", floor=40)
@@ -51,6 +89,8 @@ def check(ctx, rep):
     rep.rule("R08e", ".cap files: Type=X or - hides the file, anything else is merged and the file listed once; unreadable .cap ignored", floor=1)
     rep.rule("R08g", "link-file text: getLinkItem evaluated on scripted blocks gives the documented entry (Path= forms, Host=+/Port=+, Numb, Abstract continuation, comments, .cap)", floor=10)
     rep.rule("R08f", "Host=+ / Port=+ leave host/port unset (this server)", floor=2)
+    rep.rule("R08i", "titles lose exactly the file's own extension (the last occurrence, at the end): fileext.extstrip evaluated on 10 names", floor=1)
+    extension_strip_obligations(ctx, rep, "R08i")
     rep.rule("R08h", "= R15e: a sidecar .abstract file becomes the entry's abstract line for line (lines end at the line feed only; form feeds and "
              "other separators inside a line stay where they are): the sidecar reader evaluated on a scripted file", floor=0)
     from .c15 import _sidecars_by_evaluation
@@ -200,7 +240,7 @@ def _is_lookup(expr, dname, lvar, defs=None):
     return False
 
 
-def _merge_by_evaluation(ctx, rep, umn, me) -> bool:
+def _merge_by_evaluation(ctx, rep, umn, me, rule="R08d") -> bool:
     """mergeentries(old, new) evaluated on model entries: the block sets selector, name and port and one abstract; it leaves
     type, host and num unset.  Afterwards old has exactly those three fields and the abstract from the block and keeps its own
     type, host and num.  True when the evaluation decided."""
@@ -218,7 +258,7 @@ def _merge_by_evaluation(ctx, rep, umn, me) -> bool:
         if r is None:
             return False
         all_problems.extend(r)
-    rep.add("R08d", f"{me.qualname}: only fields the block sets override", not all_problems, ctx.where(me), "; ".join(all_problems[:3]), key="R08d|mergeentries")
+    rep.add(rule, f"{me.qualname}: only fields the block sets override", not all_problems, ctx.where(me), "; ".join(all_problems[:3]), key=f"{rule}|mergeentries")
     return True
 
 
@@ -252,6 +292,8 @@ def _merge_scenario(ctx, umn, me, OLD, NEW, newvals, newea):
             if obj == NEW and f.attr.startswith("get") and f.attr[3:] in newvals:
                 v = newvals[f.attr[3:]]
                 return _C(v) if v is not None or not args else args[0]
+            if obj == OLD and f.attr == "geteadict":
+                return _C({"KEYWORDS": "old keywords"})
             if obj == OLD and f.attr == "setea" and len(args) == 2 and args[0].kind == "const":
                 st.facts["__oldea." + str(args[0].value)] = args[1]
                 return _C(None)
@@ -285,10 +327,11 @@ def _merge_scenario(ctx, umn, me, OLD, NEW, newvals, newea):
         if p.kind == "raise":
             return None
         st_ = {k: (v.value if v.kind == "const" else "?") for k, v in p.state.facts.items() if k.startswith(("__old.", "__oldea."))}
-        outs.add(tuple(sorted(st_.items())))
+        outs.add(repr(sorted(st_.items())))
+        last_ = st_
     if len(outs) != 1:
         return None
-    got = dict(next(iter(outs)))
+    got = dict(last_)
     if "?" in got.values() or not got:
         return None
     want = {"__old." + k: v for k, v in newvals.items() if v is not None}
@@ -297,6 +340,16 @@ def _merge_scenario(ctx, umn, me, OLD, NEW, newvals, newea):
     for k, v in want.items():
         if got.get(k) != v:
             problems.append(f"the block's {k.split('.', 1)[1]} ({v!r}) is not carried over to the walked entry (it has {got.get(k, 'its old value')!r})")
+    if isinstance(got.get("__old.ea"), dict):
+        # the attribute table was assigned as a whole: it has to hold the entry's own blocks and the block's
+        whole = got.pop("__old.ea")
+        if whole.get("KEYWORDS") != "old keywords":
+            problems.append(f"the walked entry's own attribute blocks are replaced by the block's ({sorted(whole)} instead of its KEYWORDS plus {sorted(newea)}): "
+                            "side-file blocks of a file vanish from the listing as soon as a link file gives it an abstract")
+        for k, v in newea.items():
+            if whole.get(k) == v:
+                got["__oldea." + k] = v
+        problems = [p_ for p_ in problems if not any(f"block's {k} " in p_ for k in newea if whole.get(k) == newea[k])]
     for k, v in got.items():
         if k not in want and not (isinstance(v, str) and v == "old " + k.split(".", 1)[1]):
             problems.append(f"the walked entry's {k.split('.', 1)[1]} is overwritten with {v!r} although the block does not set it")
@@ -592,6 +645,8 @@ LINKFILE_CASES = [
     ("./ path: merge with the walked file", None, ["Path=./fred", "Name=Fred's file", ""],
      {"selector": "/SB/fred", "needsmerge": True, "name": "Fred's file"}, "continue"),
     ("~/ path: merge with the walked file", None, ["Path=~/fred", ""], {"selector": "/SB/fred", "needsmerge": True}, "continue"),
+    ("./ path to a name that starts with a dot", None, ["Path=./.archive", "Type=1", ""], {"selector": "/SB/.archive", "needsmerge": True, "type": "1"}, "continue"),
+    ("./ path to a name that starts with dots and a slash-free tail", None, ["Path=./..data", ""], {"selector": "/SB/..data", "needsmerge": True}, "continue"),
     ("relative path, Host=+ Port=+ : this server, resolved against the directory", None, ["Name=Rel", "Path=sub/x", "Host=+", "Port=+", ""],
      {"name": "Rel", "selector": "/SB/sub/x", "needsabspath": True}, "continue"),
     ("relative path, no host: resolved against the directory", None, ["Path=../up/x", ""], {"selector": "/up/x", "needsabspath": True}, "continue"),
